@@ -78,8 +78,11 @@ pub assume_specification<T: Clone>[ <[T]>::to_vec ](s: &[T]) -> (r: Vec<T>)
 // R11 targets: total functions (they cannot panic); their results are left unspecified except where noted
 #[verifier::external_body]
 pub fn str_starts_with_lit(s: &str, p: &str) -> (r: bool) { s.starts_with(p) }
-// s starts with p (uninterpreted; tied to str::starts_with by the external function below)
-pub uninterp spec fn str_has_prefix(s: Seq<char>, p: Seq<char>) -> bool;
+// s starts with p.  TRUSTED(T3): str::starts_with(&String) compares the leading characters (assumed through the
+// external function below; the std function is generic over the unstable Pattern trait)
+pub open spec fn str_has_prefix(s: Seq<char>, p: Seq<char>) -> bool {
+    p.len() <= s.len() && s.subrange(0, p.len() as int) == p
+}
 #[verifier::external_body]
 pub fn str_starts_with_string(s: &str, p: &String) -> (r: bool)
     ensures r == str_has_prefix(s@, p@),
